@@ -114,14 +114,19 @@ def entries_of(kind, doc):
 
 
 def temp_files(dirpath, name):
-    """Left-over temp files  .<name>.tmp.<pid>  -> {pid: size}"""
+    """Left-over temp files  .<name>.tmp.<pid>.<n>  (D95; older: .<name>.tmp.<pid>) -> {"<pid>.<n>": size}"""
     out = {}
     if os.path.isdir(dirpath):
         for f in os.listdir(dirpath):
-            m = re.fullmatch(re.escape("." + name) + r"\.tmp\.(\d+)", f)
+            m = re.fullmatch(re.escape("." + name) + r"\.tmp\.(\d+(?:\.\d+)?)", f)
             if m:
-                out[int(m.group(1))] = os.path.getsize(os.path.join(dirpath, f))
+                out[m.group(1)] = os.path.getsize(os.path.join(dirpath, f))
     return out
+
+
+def temps_of_pid(temps, pid):
+    """the entries of a temp_files() result whose pid component is `pid`"""
+    return {k: v for k, v in temps.items() if k.split(".")[0] == str(pid)}
 
 
 def read_trace(path):
@@ -135,9 +140,12 @@ def read_trace(path):
     return out
 
 
-# ---------------------------------------------------------------- synthetic large documents (about 1 MB)
+# ---------------------------------------------------------------- synthetic large documents (each ABOVE 1 MiB:
+# a loader that reads only a bounded prefix, or a buffer-sized chunk, must show)
+LARGE_MIN_BYTES = 1024 * 1024 + 64 * 1024
 
-def large_history(n=7000, start=NOW0 - 10_000_000):
+
+def large_history(n=8000, start=NOW0 - 10_000_000):
     ents = [{"timestamp": start + 60 * i, "total_files": 2, "total_lines": 6 + i % 7, "code": 6, "comment": i % 7, "blank": 0}
             for i in range(n)]
     return json.dumps({"version": 1, "entries": ents}, indent=2)
